@@ -176,9 +176,17 @@ def r16a(rep, F):
             for d in ds.get('decls', []):
                 if d.get('init'):
                     defs[d['did']] = d['init']
-        if e is not None and e['k'] == 'DeclRefExpr' and e.get('did') in defs:
-            e = fn.strip(defs[e['did']])
-        cmps = [x for x in fn.walk(e['id'])] if e is not None else []
+        cmps = None
+        if e is not None and e['k'] == 'DeclRefExpr' and e.get('dk') == 'Local':
+            # every definition of the returned local: its initialiser and later assignments; a definition that is the literal false is a
+            # failure verdict and carries no obligation
+            alld = [defs[e['did']]] if e.get('did') in defs else []
+            alld += [x['ch'][1] for x in fn.walk() if x['k'] == 'BinaryOperator' and x.get('op') == '=' and
+                     (fn.strip(x['ch'][0]) or {}).get('did') == e.get('did') and (fn.strip(x['ch'][0]) or {}).get('k') == 'DeclRefExpr']
+            alld = [d_ for d_ in alld if not ((fn.strip(d_) or {}).get('k') == 'CXXBoolLiteralExpr' and (fn.strip(d_) or {}).get('v') in (False, 'false', 0))]
+            cmps = [x for d_ in alld for x in fn.walk(d_)]
+        if cmps is None:
+            cmps = [x for x in fn.walk(e['id'])] if e is not None else []
         ok = False
         for x in cmps:
             if x['k'] == 'BinaryOperator' and x.get('op') == '<=':
